@@ -662,7 +662,9 @@ Inductive op :=
 | OAddAsg (set import : bool) (d : disp) (names : list N)
 | ODelAsg (import : bool) (names : list N) (all : bool)
 | OEval (import : bool) (r : route)
-| ODump.
+| ODump
+| OSetRpki                           (* the harness installs its RPKI table: evaluation from now on has one *)
+| OProbe (n : nlri) (asn : N).       (* RpkiTable::validate probed for (prefix, origin AS) *)
 
 Definition lift (r : table * N) : res (table * N) := Ok r.
 
@@ -678,7 +680,7 @@ Definition crud_step (t : table) (o : op) : res (table * N) :=
   | ODelPol n pr all ss => lift (delete_policy t n pr all ss)
   | OAddAsg st im d ns => lift (add_assignment t st im d ns)
   | ODelAsg im ns all => lift (delete_assignment t im ns all)
-  | OEval _ _ | ODump => Ok (t, OK)
+  | OEval _ _ | ODump | OSetRpki | OProbe _ _ => Ok (t, OK)
   end.
 
 (* ------------------------------------------------------------------ *)
@@ -686,21 +688,24 @@ Definition crud_step (t : table) (o : op) : res (table * N) :=
 
 Section Run.
   Variable rx_comm rx_ext rx_large : N -> N -> bool.
+  Variable rx_aspath : N -> list N -> bool.
+  Variable validate : nlri -> N -> option N.
 
-  Definition eval_op (t : table) (import : bool) (r : route) : val :=
+  Definition eval_op (rpki_on : bool) (t : table) (import : bool) (r : route) : val :=
+    let rpki := if rpki_on then Some validate else None in
     match slot t import with
     | None => VL [VI (-2)%Z]
     | Some a =>
         let rs := {| r_attrs := ro_attrs r; r_nh := ro_nh r |} in
         if import then
-          match apply_import rx_comm rx_ext rx_large a (ro_src r) (ro_net r) rs with
+          match apply_import rx_comm rx_ext rx_large rx_aspath rpki a (ro_src r) (ro_net r) rs with
           | Panic _ => VL [VI (-1)%Z]
           | Ok (f, rs') => VL (VB f :: v_rstate rs')
           end
         else
           let x := {| x_src := ro_src r; x_net := ro_net r; x_orig_nh := ro_orig r;
                       x_confed := ro_confed r; x_local := ro_local r; x_peer := ro_peer r |} in
-          match apply_export rx_comm rx_ext rx_large a x rs with
+          match apply_export rx_comm rx_ext rx_large rx_aspath rpki a x rs with
           | Panic _ => VL [VI (-1)%Z]
           | Ok (d, rs') => VL (VN (disp_code d) :: v_rstate rs')
           end
@@ -755,22 +760,25 @@ Section Run.
     VL [VList (fun e => VL [VN (fst (fst e)); VN (snd (fst e)); v_setv (snd e)]) (t_sets t);
         VList v_stmt (t_stmts t); VList v_pol (t_pols t); v_asg (t_imp t); v_asg (t_exp t)].
 
-  Fixpoint run_ops (t : table) (l : list op) : list val :=
+  Fixpoint run_ops (rpki_on : bool) (t : table) (l : list op) : list val :=
     match l with
     | [] => []
     | o :: r =>
         match o with
         | OEval im ro =>
-            let v := eval_op t im ro in
+            let v := eval_op rpki_on t im ro in
             match v with
             | VL [VI (-1)%Z] => [v]
-            | _ => v :: run_ops t r
+            | _ => v :: run_ops rpki_on t r
             end
-        | ODump => dump t :: run_ops t r
+        | ODump => dump t :: run_ops rpki_on t r
+        | OSetRpki => VL [VN 0] :: run_ops true t r
+        | OProbe n asn =>
+            (if rpki_on then VOpt VN (validate n asn) else VL [VI (-2)%Z]) :: run_ops rpki_on t r
         | _ =>
             match crud_step t o with
             | Panic _ => [VL [VI (-1)%Z]]
-            | Ok (t', c) => VL [VN c] :: run_ops t' r
+            | Ok (t', c) => VL [VN c] :: run_ops rpki_on t' r
             end
         end
     end.
@@ -784,5 +792,33 @@ Definition rx_table (tb : list (N * list N)) (id s : N) : bool :=
   | None => false
   end.
 
-Definition run_case (tc te tl : list (N * list N)) (ops : list op) : val :=
-  VL (run_ops (rx_table tc) (rx_table te) (rx_table tl) empty_table ops).
+(* as-path patterns: (pattern id, rendered paths it matches) *)
+Fixpoint str_eqb (a b : list N) : bool :=
+  match a, b with
+  | [], [] => true
+  | x :: a', y :: b' => (x =? y) && str_eqb a' b'
+  | _, _ => false
+  end.
+Definition rx_str_table (tb : list (N * list (list N))) (id : N) (s : list N) : bool :=
+  match find (fun e => fst e =? id) tb with
+  | Some e => existsb (str_eqb s) (snd e)
+  | None => false
+  end.
+
+Definition nlri_eqb (a b : nlri) : bool :=
+  match a, b with
+  | NV4 x m, NV4 y n => (x =? y) && (m =? n)
+  | NV6 x m, NV6 y n => (x =? y) && (m =? n)
+  | _, _ => false
+  end.
+(* the probed values of RpkiTable::validate: ((prefix, origin AS), result) *)
+Definition validate_table (tb : list (nlri * N * option N)) (n : nlri) (asn : N) : option N :=
+  match find (fun e => nlri_eqb (fst (fst e)) n && (snd (fst e) =? asn)) tb with
+  | Some e => snd e
+  | None => None
+  end.
+
+Definition run_case (tc te tl : list (N * list N)) (ta : list (N * list (list N)))
+           (tv : list (nlri * N * option N)) (ops : list op) : val :=
+  VL (run_ops (rx_table tc) (rx_table te) (rx_table tl) (rx_str_table ta) (validate_table tv)
+              false empty_table ops).
